@@ -522,6 +522,7 @@ def run_case(case, probe_held=False, check_release=False, op_budget=60.0) -> Run
                     # state_dict() failed in the reader's start-up: the constructor re-raises the StartupExceptionWrapper
                     r.obs.append(("reset-error", _err_kind(e)))
                     hist = []
+                if not hist and r.obs:   # (outside the handler: the exception's traceback keeps the failed iterator alive)
                     del node
                     node = None
                     settle()
